@@ -2,10 +2,14 @@
 //!
 //! Case: `cnf fmt=<cnf|wcnf|gcnf|log> ty=<i8|i16|i32|i64|isize> cfg=<0|1> k=<fault offset|-> ls=<0|1>
 //!        d=<hex> [x=<expected observation>] [t=<corrupted token line:col:len>]`
+//!        scale cases: `d` in segment syntax (`common::data_field`), `big=1` (model skipped), `ns=<n>` (number
+//!        of extra read schedules), `dim=`/`n=` (informational: scale dimension and size)
 //! Observation (also what the Lean driver prints):
 //!   `H:<vars>:<clauses>[:<extra>]` or `H:-`, `|C:<tag>:<lits or ->` per clause, then
 //!   `|END`, `|E:io`, `|E:syn:<line>:<col>` or `|E:panic`;  log: `S:<sat|unsat|none>|A:<lits>|END`.
 //!   With `ls=1` (one line per read) every item carries `@<bytes delivered by the source>`.
+//!   An item longer than 512 bytes is printed as `<first 16 bytes>~<len>:<fnv1a-64>`, a whole text longer
+//!   than 32768 bytes as `D<items>:<len>:<fnv1a-64>|<final outcome>` (`short_item`, `join_obs`).
 //! Oracles: C01 (same observation under every schedule), C03 (write∘parse), C04 (fault ⇒ io),
 //! C05 (no panic), C06 (independent reading), C07/C03 (expected value `x`), C08 (location in
 //! range / on the corrupted token `t`), C09 (no line pulled beyond the completing one).
